@@ -92,6 +92,11 @@ def r8(R8, cfg, F):
         ck = [c for c in cb.calls() if map_call_kind(c) == 'READ' and c.callee.name == 'contains_key']
         acq = [c for c in cb.calls() if c.callee and re.search(r'::try_(read|write|lock|borrow|borrow_mut)$', c.callee.best)]
         ok = len(ck) == 1 and not acq and not common.guards_of(cb, ck[0].bb) and cb.origins(0) == {('call', ck[0].bb)}
+        if not ck and not acq:
+            # `self.get(id, type_id).is_some()`: the answer of the very look-up judged above, for the same (id, type)
+            gt = [c for c in cb.calls() if c.callee and c.callee.best == '<%s as anycache::AssetMap>::get' % m]
+            ok = len(gt) == 1 and not common.guards_of(cb, gt[0].bb) and common.returns_is_variant(cb, 1) == ['call@bb%d' % gt[0].bb] \
+                and [common.strip_refs(common.deep_path(cb, a, at=gt[0].bb)) for a in gt[0].args] == [['arg1'], ['arg2'], ['arg3']]
         R8.check(ok, cfg, cb.path, 'contains=map.contains_key', 'AssetMap::contains_key must be the map\'s own answer, unconditionally', cb.loc())
 
 
